@@ -90,7 +90,9 @@ MANIFEST = {
             "src/primaite (Gen/FileSystemCallers.lean): nobody writes files / deleted_files / folders / deleted_folders / a route manager / "
             "a deleted flag directly (C15_gen_callers_no_direct_dict_write), every method they call is a translated one "
             "(C15_gen_callers_use_translated_methods), the only outside writers of the counters are the two ENCRYPT statements "
-            "(C15_gen_callers_counter_writers) — so Inv is preserved by them through the proved methods; rig family `callers` drives "
+            "(C15_gen_callers_counter_writers), the structural methods they use are exactly create_file / create_folder / delete_file / "
+            "copy_file (C15_gen_callers_covered) and each of these AS TRANSLATED keeps Inv for every state and argument, hence so does "
+            "every sequence of such calls (C15_callers_methods_preserve_inv, C15_callers_any_sequence_preserves_inv); rig family `callers` drives "
             "exactly those callers on a real three-node network (DatabaseService backup / restore_backup / service fix, FTP store and "
             "retrieve onto existing names, ransomware and data-manipulation attacks, C2 folder) interleaved with file requests, folder "
             "restores and ticks and evaluates C15's oracle on every node after every step (no Lean model behind this family: an oracle "
